@@ -138,6 +138,7 @@ def run_history(scene, ops, sandbox, stats=None, live=None):
             elif kind == 'yaml_full':
                 # the documented route: copy the packaged file, edit it, feed it to set_prms
                 sub = os.path.join(sandbox, f'copy{pos}')
+                shutil.rmtree(sub, ignore_errors=True)
                 os.makedirs(sub)
                 ampycloud.copy_prm_file(save_loc=sub, which='default')
                 from ruamel.yaml import YAML
